@@ -4877,7 +4877,10 @@ class CubicBezier(Curve):
         local_extremizers = [0, 1]
         a = [c[v] for c in self]
         denom = a[0] - 3 * a[1] + 3 * a[2] - a[3]
-        if abs(denom) >= 1e-8:
+        # The cubic term is negligible relative to the size of the coordinates, not in absolute terms:
+        # dividing by a denominator of 1e-8 at coordinates of 1e4 loses every digit of the root.
+        scale = max(abs(x) for x in a) or 1.0
+        if abs(denom) >= 1e-8 * scale:
             delta = (
                 a[1] * a[1] - (a[0] + a[1]) * a[2] + a[2] * a[2] + (a[0] - a[1]) * a[3]
             )
